@@ -3,6 +3,6 @@
 set -e
 cd "$(dirname "$0")"
 PYTHONPATH="${VERIF_REPO:-/repo}/src:$PWD" /venv/bin/python -m harness.tables --all || echo "setup: table generation reported a problem (checks will report it)"
-./tools/mkproject.sh
+flock coq/.build.lock ./tools/mkproject.sh
 flock coq/.build.lock timeout 7200 make -C coq -j16 --no-print-directory -k || echo "setup: some Coq files failed to build (the checks of those properties will report it)"
 python3 tools/lint.py coq || true
